@@ -56,6 +56,21 @@ def make (c):
     spec ['src'] = [s for s in spec ['src'] if 'at' in s] or spec ['src']
     if any ('p' in s for s in spec ['src']):
         spec ['src'] = [dict (p = [2], v = [1.0, 0.0])]
+    rp = np.random.default_rng ([c ['seed'], 41, c ['i']])
+    if rp.random () < 0.15 and all ('at' in s for s in spec ['src']):
+        # a short passive conductor some wavelengths away (mast, guy section): its current is a thousandth of the
+        # driven element's and less, the field next to it is as much its own scattered field as the incident one
+        lam = gen.C_MHZ / spec ['f']
+        sl  = min (np.linalg.norm (np.array (g ['p1']) - np.array (g ['p2'])) / g ['n'] for g in spec ['geo'])
+        n   = int (rp.integers (3, 6))
+        L   = float (rp.uniform (0.06, 0.12)) * lam
+        d   = float (rp.uniform (2.5, 4.0)) * lam
+        az  = float (rp.uniform (0, 2 * np.pi))
+        c0  = np.array ([d * np.cos (az), d * np.sin (az), 0.3 * lam + L])
+        ax  = np.array ([0.0, 0.0, 1.0]) if spec ['media'] is not None else rp.normal (size = 3)
+        ax  = ax / np.linalg.norm (ax)
+        spec ['geo'].append (gen.wire (n, c0 - ax * L / 2, c0 + ax * L / 2, min (g ['r'] for g in spec ['geo']), tag = None))
+        spec ['passive'] = True
     return add_points (rng, spec)
 # end def make
 
@@ -69,12 +84,13 @@ def add_points (rng, spec):
     return gen.clean (spec)
 # end def add_points
 
-def near_point (m, rng_pick, d, direction):
-    """ a point at distance d (in longest-segment units) from a randomly picked segment, pushed out
-        along `direction` until it really is that far from every conductor (images included)
+def near_point (m, rng_pick, d, direction, obj = None):
+    """ a point at distance d (in longest-segment units) from a randomly picked segment (of the object obj, if given),
+        pushed out along `direction` until it really is that far from every conductor (images included)
     """
     segs = [s for g in m.geo for s in g.segments]
-    s    = segs [int (rng_pick * len (segs)) % len (segs)]
+    pick = segs if obj is None else list (obj.segments)
+    s    = pick [int (rng_pick * len (pick)) % len (pick)]
     lmax = max (x.seg_len for x in segs)
     mid  = (np.asarray (s.p1, float) + np.asarray (s.p2, float)) / 2
     u    = np.asarray (direction, float)
@@ -161,6 +177,12 @@ def check (c):
         x = np.asarray (m.pulses [int (nf ['pick'][2 + j] * len (m.pulses)) % len (m.pulses)].point, float) + u * nf ['mid'][j] * lam
         if nfref.min_distance (m, x) >= 1.0:
             pts.append (('mid', x))
+    if spec.get ('passive'):
+        # next to the passive conductor (the object defined last)
+        for j in range (2):
+            x, d = near_point (m, nf ['pick'][4 + j], 1.2 + 1.5 * nf ['pick'][j], nf ['dirs'][4 + j], obj = m.geo [-1])
+            if x is not None:
+                pts.append (('passive', x))
     classes = set ()
     refs = []
     for kind, x in pts:
